@@ -43,6 +43,19 @@ Theorem reconnect_after_any_history :
 Proof. exact reconnect_after_any_history_lem. Qed.
 Print Assumptions reconnect_after_any_history.
 
+(* EVENT-STREAM HTTP client (respondent.evented: the cut-off branch of Patron.serviceAll restarts
+   the timer with duration = respondent.retry).  Once the timer duration is the retry value r
+   (from the first reconnect on, or when timeout = retry) the same bound holds with r in place
+   of the timeout: connected after ceil(r/dmin) + lag + 1 paced service calls. *)
+Theorem reconnect_bounded_event_stream :
+  forall orc lname pname (c : client) (ts : list tick) (lag n : nat) (dmin dmax r : Z),
+    reconn c = true -> 0 < timeout c -> tstart c <= now c -> tdur c = r ->
+    0 < dmin -> dmin <= dmax -> (Z.of_nat lag + 1) * dmax < r -> r <= Z.of_nat n * dmin ->
+    listening orc (nsock c) lag -> no_raise orc -> paced ts dmin dmax -> (n + lag + 1 <= length ts)%nat ->
+    let c' := run_ev orc lname pname r c ts in accepted c' = true /\ cutoff c' = false.
+Proof. exact reconnect_bounded_ev_lem. Qed.
+Print Assumptions reconnect_bounded_event_stream.
+
 (* Whenever the client reports connected, .ca and .ha are the local and peer address of the
    socket it currently holds (the one connect_ex succeeded on) -- over every schedule/oracle. *)
 Theorem addresses_live :
